@@ -468,6 +468,11 @@ func runC01(c *Ctx) error {
 		}
 		c.R.Count("long", 1)
 	}
+	if c.Replay == "" {
+		if err := c01DeepReorgs(c, l); err != nil {
+			return err
+		}
+	}
 	c.R.ModelOps = l.Ops
 	return nil
 }
